@@ -24,7 +24,7 @@ RULE = ('cases: seeded histories of <=60 ops (join, leave, re-join, attach, deta
         'type, a re-join, and an empty-listing answer; distinct by (class, op trace) signature.')
 ASSUMPTIONS = ['component classes use identity equality; each component instance belongs to one agent',
                'PositionComponent managed by spatial worlds is outside the claim', 'F1/F2/F3/F6 are known findings (not repaired)']
-FLOORS = {'quick': {'direct_reads_of_the_pools_attribute': 59993, 'cases_in_mode_optimised': 141, 'redundant_registration_refused_in_a_copy': 649, 'deep_copied_models': 213, 'timesteps_cut_short_after_in_step_population_changes': 15, 'rejected_reg_listed': 224, 'rejected_dereg_offline': 311, 'rejected_dereg_new': 604, 'rejected_explicit_calls': 1273, 'listing_comparisons': 20000, 'classA_histories': 381, 'joins': 3000, 'leaves': 1500, 'rejoins': 500,
+FLOORS = {'quick': {'operations_after_which_nobody_looked': 5211, 'direct_reads_of_the_pools_attribute': 59993, 'cases_in_mode_optimised': 141, 'redundant_registration_refused_in_a_copy': 649, 'deep_copied_models': 213, 'timesteps_cut_short_after_in_step_population_changes': 15, 'rejected_reg_listed': 224, 'rejected_dereg_offline': 311, 'rejected_dereg_new': 604, 'rejected_explicit_calls': 1273, 'listing_comparisons': 20000, 'classA_histories': 381, 'joins': 3000, 'leaves': 1500, 'rejoins': 500,
                     'empty_answers': 3000, 'leave_shared_type': 500, 'strict_keyerror': 1000, 'migrations': 300, 'big_populations': 8, 'in_step_leaves_observed': 30, 'explicit_reregistration_rejected': 6, 'refused_offmap_joins': 200, 'models_completed_mid_history': 150, 'populated_world_installed_later': 80,
                     'reach:Core.SystemManager.register_component': 2000, 'reach:Core.SystemManager.deregister_component': 1000},
           'thorough': {'listing_comparisons': 1000000, 'classA_histories': 29000}}
